@@ -73,6 +73,11 @@ class _Classifier:
                 if isinstance(n, (ast.Lambda, ast.FunctionDef, ast.AsyncFunctionDef, ast.ClassDef,
                                   ast.Await, ast.Yield, ast.YieldFrom, ast.NamedExpr)):
                     self.fail(n, "construct %s not understood" % type(n).__name__)
+                if isinstance(n, ast.GeneratorExp):
+                    # evaluated lazily, possibly after the with-block has been left
+                    for m in ast.walk(n):
+                        if isinstance(m, ast.Name) and (m.id == "self" or m.id in self.tainted or m.id in self.aliases):
+                            self.fail(n, "generator expression over the cache's state (evaluated lazily)")
                 if isinstance(n, ast.Call) and isinstance(n.func, ast.Name):
                     if n.func.id == "super":
                         direct = True
